@@ -21,7 +21,7 @@ RULE = ('random directories of 2-7 model files in up to 3 sub-directories with r
         '(import graph shape, provider, repository mode); non-trivial = graph has a cycle, a diamond or a colliding name')
 REQUIRED = {'top_level_loads': 300, 'files_open_checked': 800, 'references_checked': 500, 'cyclic_graphs': 30,
             'colliding_names_resolved': 50, 'cached_reloads': 30, 'builtin_model_resolutions': 10, 'glob_imports': 10,
-            'search_path_loads': 10, 'rrel_m_loads': 10}
+            'search_path_loads': 10, 'rrel_m_loads': 10, 'search_path_shadow_cases': 50}
 
 PROVIDERS = ['plain', 'fqn', 'search', 'rrel', 'globalrepo']
 
@@ -60,7 +60,77 @@ def has_cycle(d):
     return False
 
 
+def search_path_shadow(ctx, i, rep):
+    """ImportURI with search_path: a relative import is looked up next to the importing file first, then in the search
+    path. One file name exists next to one importer AND in the search path; another importer has only the search-path copy."""
+    from textx import metamodel_from_str, TextXError
+    import textx.scoping.providers as sp
+    r = ctx.rng('sp', i)
+    M.SPY.install()
+    tmp = tempfile.mkdtemp(prefix='tvc17s_')
+    try:
+        files = {
+            'sp/common.m': 'def shared def only_sp\n',
+            'other/a.m': 'import "common.m"\ndef a_def\nref ra -> shared\n',
+            'pkg/common.m': 'def shared def only_pkg\n',
+            'pkg/b.m': 'import "common.m"\ndef b_def\nref rb -> shared\n',
+        }
+        order = ['other/a.m', 'pkg/b.m']
+        r.shuffle(order)
+        files['main.m'] = ''.join('import "%s"\n' % f for f in order) + 'def main_def\n'
+        for f, t in files.items():
+            os.makedirs(os.path.dirname(os.path.join(tmp, f)), exist_ok=True)
+            with open(os.path.join(tmp, f), 'w') as fh:
+                fh.write(t)
+        global_repo = r.random() < 0.5
+        prov = r.choice(['plain', 'fqn'])
+        mm = metamodel_from_str(M.GRAMMAR, global_repository=global_repo)
+        cls = sp.PlainNameImportURI if prov == 'plain' else sp.FQNImportURI
+        mm.register_scope_providers({'*.*': cls(search_path=[os.path.join(tmp, 'sp')])})
+        ctx.count('search_path_shadow_cases')
+        wit = {'files': files, 'import_order_in_main': order, 'global_repository': global_repo, 'provider': prov}
+        ctx.case(('search-path-shadow', tuple(order), global_repo, prov), True, wit if ctx.evaluations < 3 else None)
+        preload = global_repo and r.random() < 0.5
+        if preload:
+            # an earlier load caches the search-path copy
+            mm.model_from_file(os.path.join(tmp, 'other', 'a.m'))
+        M.SPY.reset(tmp)
+        try:
+            m = mm.model_from_file(os.path.join(tmp, 'main.m'))
+        except TextXError as e:
+            ctx.violation(None, 'search-path layout failed to load: %s' % str(e)[:140], wit, rep)
+            return
+        models = all_models_reachable(m)
+        by_base = {}
+        for fn, lst in models.items():
+            if fn:
+                by_base[os.path.relpath(fn, tmp)] = lst
+        exp_loaded = set(files)
+        if set(by_base) != exp_loaded:
+            ctx.violation(None, 'search path + local copy: loaded files %r, the import closure (importing directory first, then the '
+                          'search path) is %r' % (sorted(by_base), sorted(exp_loaded)), wit, rep)
+            return
+        for f in files:
+            n = M.SPY.counts.get(os.path.join(tmp, f), 0)
+            want = 0 if (preload and f in ('other/a.m', 'sp/common.m')) else 1
+            if n != want:
+                ctx.violation(None, 'search path + local copy: %s opened %d times, expected %d' % (f, n, want), wit, rep)
+                return
+        for f, refname, target_file in (('other/a.m', 'ra', 'sp/common.m'), ('pkg/b.m', 'rb', 'pkg/common.m')):
+            mo = by_base[f][0]
+            ref = [x for x in mo.refs if x.name == refname][0]
+            got = model_of(ref.target)
+            if got is not by_base[target_file][0]:
+                ctx.violation(None, 'search path + local copy: %s of %s points into %s, the file found first for its import is %s' % (
+                    refname, f, os.path.relpath(getattr(got, '_tx_filename', '?') or '?', tmp), target_file), wit, rep)
+                return
+    finally:
+        shutil.rmtree(tmp, ignore_errors=True)
+
+
 def one(ctx, i, rep=None):
+    if i % 10 == 7:
+        return search_path_shadow(ctx, i, rep or {'i': i})
     from textx import metamodel_from_str, TextXError
     import textx.scoping.providers as sp
     from textx.scoping import ModelRepository
